@@ -539,7 +539,7 @@ func specSlicesCollect(env *Env, recv *Val, args []Val, st *State, call *ast.Cal
 	at := seqAtFn(c, env, ss, et, 0)
 	i := c.freshBound("i")
 	st.assume(eq(app("len_"+rs, r.T), app(c.seqLenFn(ss), sq.T)))
-	st.assume(fmt.Sprintf("(forall ((%s Int)) (! (= (select (arr_%s %s) %s) (%s %s %s)) :pattern ((select (arr_%s %s) %s))))", i, rs, r.T, i, at, sq.T, i, rs, r.T, i))
+	st.assume(fmt.Sprintf("(forall ((%s Int)) (! (= (select (arr_%s %s) %s) (%s %s %s)) :pattern ((select (arr_%s %s) %s)) :pattern ((%s %s %s))))", i, rs, r.T, i, at, sq.T, i, rs, r.T, i, at, sq.T, i))
 	return r
 }
 
